@@ -3,8 +3,9 @@ package main
 // C17: the decoration registry under concurrency; fails closed.
 //
 // A spec is a list of per-goroutine programs over
-//   reg n d | named n | names | styles | set n | render i | reset i n | setdec i d
-// (set n = texttable.Wrap(good table) + SetDecorationNamed(n) + Render();
+//   reg n d | named n | names | styles | set n | auto n | render i | reset i n | setdec i d
+// (set n = texttable.Wrap(good table) + SetDecorationNamed(n) + Render(); auto n =
+// the same selection through auto.New(n), n dot-free and no sub-package name;
 // render i = Render() again on the i-th table this goroutine made; reset i n =
 // SetDecorationNamed(n) + Render() on that table; setdec i d = SetDecoration(d)
 // + Render() on it; styles = auto.ListStyles()).  Every listing returned by
@@ -33,7 +34,7 @@ import (
 )
 
 type C17Op struct {
-	K string `json:"k"` // reg named names styles set render reset setdec
+	K string `json:"k"` // reg named names styles set auto render reset setdec
 	N string `json:"n,omitempty"`
 	D int    `json:"d,omitempty"`
 	I int    `json:"i,omitempty"`
@@ -42,6 +43,9 @@ type C17Op struct {
 type C17Spec struct {
 	Mode  string    `json:"mode"` // seq | conc
 	Progs [][]C17Op `json:"progs"`
+	// Cold: the programs' first operation is the first thing this process asks of the registry
+	// (no dump of its initial content, which is taken to be the six documented built-ins)
+	Cold bool `json:"cold,omitempty"`
 }
 
 type C17Ev struct {
@@ -91,6 +95,19 @@ func c17Exec(op c17op, tabs *[]*texttable.TextTable) (ev C17Ev) {
 		ev.SetErr = err != nil
 		r := renderRes(tt.Render, outToID)
 		ev.R = &r
+		*tabs = append(*tabs, tt)
+	case "auto":
+		rt := auto.New(op.name)
+		tt, isText := rt.(*texttable.TextTable)
+		if !isText {
+			ev.R = &RRes{K: "panic", Msg: fmt.Sprintf("auto.New(%q) is a %T", op.name, rt)}
+			tt = texttable.Wrap(goodTable())
+		} else {
+			rt.AddHeaders("h1", "h2")
+			rt.AddRowItems("a", "b")
+			r := renderRes(tt.Render, outToID)
+			ev.R = &r
+		}
 		*tabs = append(*tabs, tt)
 	case "render":
 		if op.I >= 0 && op.I < len(*tabs) {
@@ -154,7 +171,12 @@ func c17Worker() {
 		panic(err)
 	}
 	progs := c17Decode(spec.Progs)
-	out := C17Out{Init: dumpRegistry()}
+	var out C17Out
+	if spec.Cold {
+		out.Init = assumedInit() // paletteInit uses constructors and SetDecoration only: nothing has looked a name up yet
+	} else {
+		out.Init = dumpRegistry()
+	}
 	var clock int64
 	if spec.Mode == "seq" {
 		for g, p := range progs {
@@ -202,7 +224,7 @@ func c17Worker() {
 	}
 	for _, p := range progs {
 		for _, o := range p {
-			if o.K == "reg" || o.K == "named" || o.K == "set" || o.K == "reset" {
+			if o.K == "reg" || o.K == "named" || o.K == "set" || o.K == "reset" || o.K == "auto" {
 				universe[o.name] = true
 			}
 		}
@@ -243,42 +265,124 @@ func c17Worker() {
 			}
 		}
 	}
-	raw := make([][]C17Ev, len(progs))
-	start2 := make(chan struct{})
-	for g := range progs {
-		wg.Add(1)
-		go func(g int) {
-			defer wg.Done()
-			var tabs []*texttable.TextTable
-			evs := make([]C17Ev, 0, len(progs[g]))
-			<-start2
-			for _, o := range progs[g] {
-				evs = append(evs, c17Exec(o, &tabs))
+	// round 0: the programs as they are (overwrites of the same names while others read);
+	// rounds 1, 2: every registration goes to a fresh name of its own (name~round), so the
+	// registry grows while others list it.  What is checked here needs no time stamps:
+	//  - a lookup returns something registered under that name (rounds 1, 2: nobody
+	//    writes the looked-up names any more, so exactly what it held before the round);
+	//  - a listing is sorted and duplicate-free, has every name that was there when the
+	//    round began and every name this goroutine itself registered earlier in the
+	//    round, and nothing that nobody registers.
+	for round := 0; round < 3; round++ {
+		rprogs := progs
+		if round > 0 {
+			rprogs = make([][]c17op, len(progs))
+			for g, p := range progs {
+				for _, o := range p {
+					if o.K == "reg" {
+						o.name = fmt.Sprintf("%s~%d", o.name, round)
+						o.N = qname(o.name)
+					}
+					rprogs[g] = append(rprogs[g], o)
+				}
 			}
-			raw[g] = evs
-		}(g)
-	}
-	close(start2)
-	wg.Wait()
-	for g, evs := range raw {
-		for i, ev := range evs {
-			o := progs[g][i]
-			switch o.K {
-			case "named":
-				if !allowed[o.name][ev.Dec] {
-					out.RawBad = fmt.Sprintf("unstamped phase: goroutine %d op %d Named(%q) returned decoration %d, never registered under that name", g, i, o.name, ev.Dec)
+		}
+		before := map[string]bool{}
+		for _, n := range decoration.RegisteredDecorationNames() {
+			before[n] = true
+		}
+		held := map[string]int{}
+		possible := map[string]bool{}
+		for n := range before {
+			possible[n] = true
+		}
+		for _, p := range rprogs {
+			for _, o := range p {
+				if o.K == "reg" {
+					possible[o.name] = true
+				} else if o.K == "named" {
+					if _, ok := held[o.name]; !ok {
+						held[o.name] = decID(decoration.Named(o.name))
+					}
 				}
-			case "names", "styles":
-				if !sort.StringsAreSorted(ev.Names) {
-					// quoted forms sort like the raw ones only for plain ASCII; re-check on raw
-					rawNames := make([]string, len(ev.Names))
+			}
+		}
+		raw := make([][]C17Ev, len(rprogs))
+		start2 := make(chan struct{})
+		for g := range rprogs {
+			wg.Add(1)
+			go func(g int) {
+				defer wg.Done()
+				var tabs []*texttable.TextTable
+				evs := make([]C17Ev, 0, len(rprogs[g]))
+				<-start2
+				for _, o := range rprogs[g] {
+					evs = append(evs, c17Exec(o, &tabs))
+				}
+				raw[g] = evs
+			}(g)
+		}
+		close(start2)
+		wg.Wait()
+		bad := func(format string, a ...interface{}) {
+			if out.RawBad == "" {
+				out.RawBad = fmt.Sprintf("unstamped pass, round %d: ", round) + fmt.Sprintf(format, a...)
+			}
+		}
+		for g, evs := range raw {
+			own := map[string]bool{}
+			for i, ev := range evs {
+				o := rprogs[g][i]
+				switch o.K {
+				case "reg":
+					own[o.name] = true
+				case "named":
+					if round == 0 {
+						if !allowed[o.name][ev.Dec] {
+							bad("goroutine %d op %d Named(%q) returned decoration %d, never registered under that name", g, i, o.name, ev.Dec)
+						}
+					} else if ev.Dec != held[o.name] {
+						bad("goroutine %d op %d Named(%q) returned decoration %d, but the name holds %d and nobody registers it", g, i, o.name, ev.Dec, held[o.name])
+					}
+				case "names", "styles":
+					got := map[string]bool{}
+					prev := ""
 					for k, q := range ev.Names {
-						rawNames[k] = unq(q)
+						n := unq(q)
+						if k > 0 && n < prev {
+							bad("goroutine %d op %d: listing not sorted at %q", g, i, n)
+						}
+						four := n == "csv" || n == "html" || n == "json" || n == "markdown"
+						if got[n] && !(o.K == "styles" && four) {
+							bad("goroutine %d op %d: listing has %q twice", g, i, n)
+						}
+						if !possible[n] && !(o.K == "styles" && four) {
+							bad("goroutine %d op %d: listing has %q, which nobody registered", g, i, n)
+						}
+						got[n] = true
+						prev = n
 					}
-					if !sort.StringsAreSorted(rawNames) {
-						out.RawBad = fmt.Sprintf("unstamped phase: goroutine %d op %d listing not sorted", g, i)
+					for n := range before {
+						if !got[n] {
+							bad("goroutine %d op %d: listing lacks %q, registered before the round began", g, i, n)
+						}
+					}
+					for n := range own {
+						if !got[n] {
+							bad("goroutine %d op %d: listing lacks %q, which this goroutine had registered", g, i, n)
+						}
 					}
 				}
+			}
+		}
+		// after the join nothing may be lost
+		after := map[string]bool{}
+		for _, n := range decoration.RegisteredDecorationNames() {
+			after[n] = true
+		}
+		for n := range possible {
+			if !after[n] {
+				bad("after the join the listing lacks %q", n)
 			}
 		}
 	}
@@ -306,6 +410,8 @@ func c17OpCoq(nt *nameTable, o C17Op) string {
 		return "OStyles"
 	case "set":
 		return "(OSet " + nt.ref(unq(o.N)) + ")"
+	case "auto":
+		return "(OAutoNew " + nt.ref(unq(o.N)) + ")"
 	case "render":
 		return "(ORender " + cqNat(o.I) + ")"
 	case "reset":
@@ -335,6 +441,8 @@ func c17ObsCoq(nt *nameTable, ev C17Ev) string {
 			return "VNone"
 		}
 		return "(VSet " + cqBool(ev.SetErr) + " " + ev.R.Coq() + ")"
+	case "auto":
+		return "(VRender " + ev.R.Coq() + ")"
 	case "render", "setdec":
 		if ev.R == nil {
 			return "VNone"
@@ -409,7 +517,7 @@ func c17Run(spec json.RawMessage) CaseOut {
 			switch o.K {
 			case "reg":
 				nReg++
-			case "named", "set", "reset":
+			case "named", "set", "reset", "auto":
 				nRead++
 			}
 		}
@@ -418,6 +526,9 @@ func c17Run(spec json.RawMessage) CaseOut {
 	bad := cr.Race || cr.Crash || out.RawBad != ""
 	body := fmt.Sprintf("mkC17 %s %s %s [\n   %s]", cqBool(sp.Mode == "seq"), cqBool(bad), initC, strings.Join(evs, ";\n   "))
 	tags := []string{"mode=" + sp.Mode, fmt.Sprintf("goroutines=%d", len(sp.Progs))}
+	if sp.Cold {
+		tags = append(tags, "cold-start(first registry operation is the program's)")
+	}
 	switch {
 	case nOps <= 3:
 		tags = append(tags, "ops<=3")
@@ -436,7 +547,7 @@ func c17Run(spec json.RawMessage) CaseOut {
 			if (o.K == "reg" || o.K == "setdec") && o.D >= 10 {
 				tags = append(tags, "decoration-written-field-by-field")
 			}
-			if o.K == "styles" || o.K == "reset" || o.K == "setdec" {
+			if o.K == "styles" || o.K == "reset" || o.K == "setdec" || o.K == "auto" {
 				tags = append(tags, "op:"+o.K)
 			}
 		}
@@ -471,22 +582,57 @@ func uniq(xs []string) []string {
 
 var c17Names = []string{"none", "x", "utf8-light", "y.z", "", "X", "\xff", "zz"}
 
+// may this name go through auto.New and mean SetDecorationNamed(name)?  (dot-free,
+// ASCII, not a sub-package name in any case: Props/C19.v c19_plain_is_set)
+func autoOK(name string) bool {
+	for i := 0; i < len(name); i++ {
+		if name[i] == '.' || name[i] >= 128 {
+			return false
+		}
+	}
+	switch strings.ToLower(name) {
+	case "csv", "html", "json", "markdown", "texttable":
+		return false
+	}
+	return true
+}
+
+// a name to read: one of the pool, or one that merely resembles it
+func c17ReadName(r *RNG, names []string) string {
+	n := pick(r, names)
+	switch r.Intn(10) {
+	case 0:
+		return n + "x"
+	case 1:
+		return n + "such"
+	case 2:
+		if len(n) > 0 {
+			return n[:len(n)-1]
+		}
+	}
+	return n
+}
+
 func c17RandOp(r *RNG, names []string, decs []int, nsets *int, conc bool) C17Op {
 	k := r.Intn(100)
 	switch {
 	case k < 26:
 		return C17Op{K: "reg", N: qname(pick(r, names)), D: pick(r, decs)}
 	case k < 50:
-		return C17Op{K: "named", N: qname(pick(r, names))}
+		return C17Op{K: "named", N: qname(c17ReadName(r, names))}
 	case k < 60:
 		return C17Op{K: "names"}
 	case k < 66:
 		return C17Op{K: "styles"}
 	case k < 78 || *nsets == 0:
 		*nsets++
-		return C17Op{K: "set", N: qname(pick(r, names))}
+		n := c17ReadName(r, names)
+		if r.Bool() && autoOK(n) {
+			return C17Op{K: "auto", N: qname(n)}
+		}
+		return C17Op{K: "set", N: qname(n)}
 	case k < 86:
-		return C17Op{K: "reset", I: r.Intn(*nsets), N: qname(pick(r, names))}
+		return C17Op{K: "reset", I: r.Intn(*nsets), N: qname(c17ReadName(r, names))}
 	case k < 92:
 		return C17Op{K: "setdec", I: r.Intn(*nsets), D: pick(r, decs)}
 	default:
@@ -517,8 +663,8 @@ func c17TableSequences(L, perWorld int, add func(C17Spec)) int {
 			{K: "render", I: k},
 		}
 	}
-	emit := func(first string, rest []C17Op, unknown string) {
-		prog = append(prog, C17Op{K: "set", N: first})
+	emit := func(first string, rest []C17Op, unknown string, route string) {
+		prog = append(prog, C17Op{K: route, N: first})
 		prog = append(prog, rest...)
 		// leave the built-in as it was for the next sequence
 		prog = append(prog, C17Op{K: "reg", N: "none", D: 2})
@@ -532,10 +678,16 @@ func c17TableSequences(L, perWorld int, add func(C17Spec)) int {
 	seqNo := 0
 	rec = func(seq []C17Op, unknown string) {
 		if len(seq) == L-1 {
-			for _, first := range []string{unknown, "none"} {
-				// a fresh unknown name and table index per emitted sequence
-				u := fmt.Sprintf("u%d", seqNo)
+			for fi, first := range []string{unknown, "none", unknown, "none"} {
+				// a fresh unknown name and table index per emitted sequence; the unknown
+				// names resemble registered ones (a registered name plus a suffix)
+				bases := []string{"nonesuch", "utf8-lighter", "ascii-simplex", "utf8-light-curved2", "none", "u"}
+				u := fmt.Sprintf("%s%d", bases[seqNo%len(bases)], seqNo)
 				seqNo++
+				route := "set"
+				if fi >= 2 {
+					route = "auto"
+				}
 				var rest []C17Op
 				for _, o := range seq {
 					c := o
@@ -551,7 +703,7 @@ func c17TableSequences(L, perWorld int, add func(C17Spec)) int {
 				if f == unknown {
 					f = u
 				}
-				emit(f, rest, u)
+				emit(f, rest, u, route)
 			}
 			return
 		}
@@ -597,6 +749,14 @@ func c17GrowthWorld(r *RNG, n int) C17Spec {
 		if i%3 == 2 {
 			p = append(p, C17Op{K: "named", N: qname(pick(r, have))}, C17Op{K: "set", N: qname(pick(r, have))})
 		}
+		// what merely resembles a registered name names nothing
+		for _, nm := range []string{name + "x", name + "such", name[:len(name)-1], pick(r, []string{"none", "utf8-light", "ascii-simple", "utf8-double"}) + pick(r, []string{"r", "d", "2", "-v2"})} {
+			if r.Bool() && autoOK(nm) {
+				p = append(p, C17Op{K: "auto", N: qname(nm)})
+			} else {
+				p = append(p, C17Op{K: "set", N: qname(nm)})
+			}
+		}
 	}
 	p = append(p, C17Op{K: "styles"}, C17Op{K: "names"}, C17Op{K: "styles"})
 	return C17Spec{Mode: "seq", Progs: [][]C17Op{p}}
@@ -604,7 +764,10 @@ func c17GrowthWorld(r *RNG, n int) C17Spec {
 
 func c17Gen(r *RNG, tier string) []json.RawMessage {
 	var out []json.RawMessage
-	add := func(s C17Spec) { out = append(out, mustJSON(s)) }
+	add := func(s C17Spec) {
+		s.Cold = len(out)%2 == 1 // every other world: nothing has consulted the registry before its first operation
+		out = append(out, mustJSON(s))
+	}
 	// (a) every sequential history of length L over a reduced alphabet
 	// (shorter ones are prefixes of these: same observations)
 	alpha := []C17Op{}
@@ -672,12 +835,39 @@ func c17Gen(r *RNG, tier string) []json.RawMessage {
 			nops = 1200 / g
 		}
 		names := c17Names[:2+r.Intn(len(c17Names)-1)]
-		if i%3 == 2 {
-			// many names: the registry's listing grows while others list it
-			names = append(append([]string{}, names...), "g0", "g1", "g2", "g3", "g4", "g5", "g6", "g7", "g8", "g9", "ga", "gb", "gc", "gd")
-		}
 		decs := allDecs[r.Intn(2):]
 		var progs [][]C17Op
+		if i%3 == 2 {
+			// registration bursts: half of the goroutines register NEW names of their own, one after
+			// the other, the rest list and look up all the time: no listing may lose a name whose
+			// registration was over, no registration may be lost
+			var all []string
+			for k := 0; k < g/2+1; k++ {
+				var p []C17Op
+				for j := 0; j < nops/3; j++ {
+					nm := fmt.Sprintf("w%d-%c%d", k, 'a'+byte((j*7+k)%26), j)
+					all = append(all, nm)
+					p = append(p, C17Op{K: "reg", N: qname(nm), D: 1 + (j+k)%13})
+				}
+				progs = append(progs, p)
+			}
+			for k := g/2 + 1; k < g; k++ {
+				var p []C17Op
+				for j := 0; j < nops/4; j++ {
+					switch r.Intn(4) {
+					case 0:
+						p = append(p, C17Op{K: "styles"})
+					case 1:
+						p = append(p, C17Op{K: "named", N: qname(pick(r, all))})
+					default:
+						p = append(p, C17Op{K: "names"})
+					}
+				}
+				progs = append(progs, p)
+			}
+			add(C17Spec{Mode: "conc", Progs: progs})
+			continue
+		}
 		for k := 0; k < g; k++ {
 			nsets := 0
 			var p []C17Op
@@ -757,14 +947,16 @@ func init() {
 		ModelFn:  "C17_model",
 		Rule: "registry worlds, one child process each (the registry is process-global): every sequential history of the enumerated length over " +
 			"{reg n d, named n, set n | n in {none (built-in), x}, d in {a complete decoration, EmptyDecoration}} + names + render 0; every per-table sequence " +
-			"'select by name, then 3 (thorough 4) of {SetDecorationNamed(unknown|built-in), SetDecoration(complete|field-by-field), Register(unknown,d|d'), Register(built-in,d'), Render}' " +
+			"'select by name (SetDecorationNamed or auto.New; the unknown name is a registered name plus a suffix), then 3 (thorough 4) of {SetDecorationNamed(unknown|built-in), SetDecoration(complete|field-by-field), Register(unknown,d|d'), Register(built-in,d'), Render}' " +
 			"(24 sequences per world, fresh unknown name and table each); worlds growing to 4-22 (thorough 40) registered names with RegisteredDecorationNames / auto.ListStyles " +
-			"after every registration; random sequential histories (4-15 ops, up to 8 names incl. a built-in, the empty string, a dotted name and a 0xFF byte, a palette of 14 decorations: " +
+			"after every registration and selections of names that merely resemble registered ones (n+x, n+such, n minus its last byte), directly and through auto.New; every other world is cold " +
+			"(its first operation is the first thing the process asks of the registry; initial content taken to be the six documented built-ins); random sequential histories (4-15 ops, up to 8 names incl. a built-in, the empty string, a dotted name and a 0xFF byte, a palette of 14 decorations: " +
 			"Empty, the 6 built-ins, 3 Populate()d ones, 4 written field by field without Populate); concurrent runs of 4-8 " +
-			"(thorough 4-16) goroutines x 40-90 (50-250) ops with atomic-counter time stamps, read-back of every name after the join, and an unstamped second pass for the race detector; " +
+			"(thorough 4-16) goroutines x 40-90 (50-250) ops with atomic-counter time stamps (every third run: half of the goroutines register new names of their own while the others list), " +
+			"read-back of every name after the join, and three unstamped passes for the race detector (the last two registering fresh names, every listing checked for the names that were there when the pass began); " +
 			"every listing the library returns is overwritten, extended within its capacity and reversed after it was recorded; " +
 			"the harness is built with -race and a race report in the child is part of the observation; a case is non-trivial when it both registers and reads; distinct = distinct specs",
-		Exhaustive: "all sequential histories of length 3 (thorough: 4) over the 10-operation alphabet (every shorter history is a prefix of one of them); all 1,024 (thorough 8,192) per-table sequences of length 4 (5) over the 8-operation table alphabet x 2 first selections",
+		Exhaustive: "all sequential histories of length 3 (thorough: 4) over the 10-operation alphabet (every shorter history is a prefix of one of them); all 2,048 (thorough 16,384) per-table sequences of length 4 (5) over the 8-operation table alphabet x 2 first names x 2 routes (SetDecorationNamed, auto.New)",
 		Gen:        c17Gen,
 		Run:        c17Run,
 		Shrink:     c17Shrink,
